@@ -60,6 +60,9 @@ CHECKS = {
  "C19": ("fault_enumeration", "reassembly of (sender, seq, checksum) payloads at the peer, parsing of the recorded wire bytes into whole sent packets, logical-clock order for 'Send returned nil before Close was called', instrumented carrier with call log and fault injection, bounded-call guards with goroutine-profile confirmation, Go race detector",
          "250/6000 send-and-close cases on the in-memory wire, 40/600 on TCP and 30/400 on WebSocket loopback (1-16 senders, async/sync patterns, flush delays 0-50 ms, close after a PRNG number of sends), every k for each carrier call kind (Read/Write/Close/SetReadDeadline) x 2 flush delays, read timeouts 10-30 ms on all three carriers",
          "peers always drain; an error injected into the SetReadTimeout call (which has no error result) is not required to be reported; loopback networking must be available", "2-C19"),
+ "C17": ("fault_enumeration", "per-connection subscription set kept by the scripted broker compared with a model of all subscribe/unsubscribe calls at rest (fence publish through the FIFO command queue, bounded settling), completion of QoS>0 publish futures across reconnects, resolution poll of all futures after Stop(true), goroutine-profile stuck detector around fences and Stop, restart probe",
+         "every failure schedule of length <=2 (quick, 4 repetitions) / <=3 (thorough, 12 repetitions, plus 1500 sampled schedules of length 3-5) over 7 failure kinds, with API calls before Start, racing with the failures from 1-4 goroutines and online; 150/2500 command storms racing with repeated drops; 40/600 stop-while-offline runs",
+         "a command taken off the queue while its client is dying is cancelled by the dispatcher (caller is told) and is accepted; subscribe/unsubscribe futures need not complete across a reconnect; service timeouts are 40 ms", "2-C17"),
 }
 NOT_APPLICABLE = {}
 def main():
